@@ -68,6 +68,46 @@ def install_field_enum(it):
     it.T.enums['__Field'] = [('__field%d' % i, [], i, None) for i in range(n)] + [('__ignore', [], n, None)]
 
 
+# ---------------------------------------------------------------- kernel D: what a list of patterns means (native, concrete)
+# The regex engine is outside the symbolic executor (patterns are opaque predicates there). What a *list* of patterns means - a tag is
+# a custom element iff some pattern of the list matches it, each pattern on its own - is decided on the native build for concrete
+# lists and tags, with Python's `re` as the reference matcher (patterns restricted to the syntax both engines share).
+PATTERN_LISTS = [['^x-'], ['^x-', '^y-'], ['(?i)^ion-', '^swiper$'], ['^swiper$', '(?i)^ion-'], ['a|b', '^c'], ['^(?:foo)$', 'bar$'], ['(?s)^x.y', '^z$'], ['^$', 'Q'],
+                 ['(?i)w', 'zzz', '^y-'], ['x', '(?i)^F']]
+PATTERN_TAGS = ['Swiper', 'swiper', 'ion-button', 'ION-x', 'x-a', 'y-b', 'Foo', 'foo', 'cab', 'z', 'Qq', 'C1']
+
+
+def job_patterns(job):
+    import re as _re
+    from . import elements as _el
+    res = {'violations': [], 'inconclusive': [], 'samples': [], 'obligations': 0, 'distinct': [], 'vacuity': {}, 'kernels': {'pattern-lists': {'paths': 0, 'obligations': 0}}}
+    e3 = _el._e3()
+    pl = job['patterns']
+    for tag in PATTERN_TAGS:
+        src = 'import Swiper from "./s"; let C1 = 0, v1 = 0;\nconst _0 = <%s a="1">{v1}</%s>;\n' % (tag, tag)
+        r = e3.run(src, {'customElementPatterns': pl})
+        if 'post' not in r:
+            res['inconclusive'].append('pattern kernel: %s' % {k: v for k, v in r.items() if k in ('parse_error', 'panic', 'options_error')})
+            continue
+        post = astio.read_program(r['post'])
+        init = jsout.find_decl_init(post, '_0')
+        mv = denote.ModuleView(post)
+        try:
+            v = denote.vnode_view(init, mv)
+            tv = denote.tag_view(v.tag, mv)
+        except Exception as e:
+            res['inconclusive'].append('pattern kernel: %s' % e); continue
+        is_html = tag in ('z',) and False
+        want = any(_re.search(p, tag) for p in pl)
+        got = tv[0] == 'str'
+        res['obligations'] += 1; res['kernels']['pattern-lists']['obligations'] += 1; res['kernels']['pattern-lists']['paths'] += 1
+        if want != got:
+            res['violations'].append({'kernel': 'pattern-lists', 'obligation': 'a tag is a custom element iff one of the configured patterns matches it', 'json': {'customElementPatterns': pl},
+                                      'info': {'tag': tag, 'matches_some_pattern': want, 'lowered_as_custom_element': got, 'code': (r.get('code') or '')[-200:]}})
+    res['stats'] = {'paths': len(PATTERN_TAGS), 'queries': 0, 'sat': 0, 'unsat': 0, 'unknown': 0, 'solver_s': 0.0, 'steps': 0, 'fns': {}, 'models': []}
+    return res
+
+
 # ---------------------------------------------------------------- kernels A and B
 def job_config(job):
     it, info = load(verbose=False)
@@ -342,6 +382,7 @@ def main(argv):
         cfg_jobs += [{'kind': 'map', 'lens': [8, 10, 11]}, {'kind': 'map', 'lens': [10, 10, 17]}, {'kind': 'map', 'lens': []}]
     cfg_jobs.append({'kind': 'map', 'lens': []})
     res = common.run_jobs(MOD, 'job_config', cfg_jobs)
+    res += common.run_jobs(MOD, 'job_patterns', [{'patterns': pl} for pl in PATTERN_LISTS])
     for r in res:
         for v in r.pop('violations', []):
             rep.violations.append({'role': 'config:' + str(v.get('obligation') or v.get('field')), 'reproduced': True, 'replay': common.save_replay(PROP, v, {'config.json': json.dumps(v.get('json'))}),
